@@ -11,7 +11,7 @@ from fractions import Fraction
 import numpy as real_np
 import z3
 
-from symx import core
+from symx import core, fp
 from symx.core import Obl, SymNum, lift, lb, mval
 from . import common
 
@@ -48,6 +48,11 @@ def configs(tier):
     # C0 >= 2: the growth step is C0 // 2, which is 0 for C0 = 1 (an artefact of scaling, 10000 // 2 != 0)
     for s, c0 in [((2, 2), 2), ((2, 2), 3), ((2, 2), 4), ((3, 1), 2), ((3, 1), 3), ((2, 1, 1), 5)]:
         out.append(dict(key=f"sizes={s},C0={c0}", sizes=list(s), chunk=c0, cost=len(common.all_tuples(s)) * 2))
+    # IEEE mode (symx.fp): the same kernel source on binary32 pair values / delta_empty with numba's width rules - what the
+    # real-arithmetic runs above cannot see (a bound that is right over the reals and wrong after rounding)
+    for s, far in [((2, 1), False), ((1, 1, 1), False)] + ([((2, 2), False), ((1, 1, 1, 1), True), ((1, 1, 1, 1, 1), True)] if tier == "thorough" else []):
+        out.append(dict(key=f"ieee,sizes={s}" + (",pairs-far-apart" if far else ""), sizes=list(s), ieee=True, far=far, chunk=None, timeout_ms=120000,
+                        cost=2000 if not far else 300, split=16 if not far else None))
     if tier == "thorough":
         for s in [(3, 3), (2, 2, 1), (1, 1, 1, 1), (4, 2), (0, 1, 2), (3, 1, 1)]:
             out.append(dict(key=f"sizes={s}", sizes=list(s), chunk=None, cost=len(common.all_tuples(s)) * 4))
@@ -103,7 +108,54 @@ def harness(cfg, ns):
         else scaled_kernel(ns, cfg["chunk"])
     tuples_all = list(__import__("itertools").product(*[range(s + 1) for s in sizes]))
 
+    def h_ieee(ctx):
+        ctx.fp_mode = True
+        F32 = lambda x: fp.SymFP.of(real_np.float32(x))      # noqa: E731
+        de = fp.fresh(ctx, "de", 32, lo=0.0, hi=1024.0, lo_open=True)
+        ctx.notes["fp_prefer"] = [(de, 0.0625, 16.0)]
+        D = {}
+
+        def val(i, j):
+            i, j = sorted((int(i), int(j)))
+            if (i, j) not in D:
+                # far: every real pair costs more than the cut allows for any delta_empty in the bound (2^21 > C(n,2) * n * 1024);
+                # concrete, so that the only symbolic quantity of these configurations is delta_empty
+                D[(i, j)] = F32(2.0 ** 21) if cfg.get("far") else fp.fresh(ctx, f"d_{i}_{j}", 32, lo=0.0, hi=2.0 ** 22)
+            return D[(i, j)]
+        ua = ns.dissimilarity.nb.typed.List()
+        for a, sz in enumerate(sizes):
+            arr = real_np.empty((sz, 4), dtype=object)
+            for j in range(sz):
+                arr[j] = [0, 1, 1, offs[a] + j]
+            ua.append(arr)
+
+        def realize(m):
+            return dict(kind="ieee-kernel", sizes=list(sizes), de=fp.hexf(fp.fpval(m, de)),
+                        pairs={f"{i},{j}": fp.hexf(fp.fpval(m, v)) for (i, j), v in D.items()})
+        ctx.notes["realize"] = realize
+        dis, al = ns.ds.AbstractDissimilarity._get_all_valid_alignments(ua, lambda u, v: val(u[3], v[3]), de)
+        got = [tuple(int(x) for x in al[k]) for k in range(len(al))]
+        obls = [Obl("ieee:each-once", len(set(got)) == len(got) and len(dis) == len(al), realize),
+                Obl("ieee:only-well-formed-tuples", all(t in set(tuples_all) for t in got), realize)]
+        for t in tuples_all:
+            real_slots = [a for a in range(n) if t[a] != sizes[a]]
+            if not real_slots:
+                obls.append(Obl("ieee:all-empty-absent", t not in got, realize))
+                continue
+            if len(real_slots) == 1:
+                # the tuple that leaves one unit alone must always be a candidate: without it the integer program has no feasible point
+                obls.append(Obl(f"ieee:lone-unit-tuple-is-a-candidate[{t}]", t in got, realize))
+                continue
+            if t not in got:
+                # a tuple none of whose pairs costs more than delta_empty is never pruned (whatever the rounding of the sums)
+                ents = [val(offs[a] + t[a], offs[b] + t[b]) for a in real_slots for b in real_slots if b < a]
+                obls.append(Obl(f"ieee:pruned=>some-pair-above-delta_empty[{t}]",
+                                core.SymBool(z3.Or(*[lb(e > de) for e in ents])), realize))
+        return obls
+
     def h(ctx):
+        if cfg.get("ieee"):
+            return h_ieee(ctx)
         if kernel is None:
             raise core.Cut("scaled-capacity statement `chunk_size = 10000` not found")
         de = ctx.fresh("de")
@@ -201,6 +253,62 @@ def _real_candidates(sizes, de, pairs):
     return {tuple(int(x) for x in al[k]): float(dis[k]) for k in range(len(al))}, len(al)
 
 
+def _real_ieee_candidates(sizes, de, pairs):
+    """the real numba kernel on exact binary32 inputs: d_mat is a jitted table lookup, delta_empty a float32"""
+    import numpy as np
+    import numba as nb
+    nunits = sum(sizes)
+    T = np.zeros((nunits, nunits), dtype=np.float32)
+    for key, v in pairs.items():
+        i, j = (int(x) for x in key.split(","))
+        T[i, j] = T[j, i] = np.float32(fp.unhex(v))
+
+    @nb.njit(nb.float32(nb.float32[:], nb.float32[:]))
+    def d_mat(u1, u2):
+        return T[int(u1[3]), int(u2[3])]
+    import pygamma_agreement as pa
+    arrs = nb.typed.List()
+    uid = 0
+    for a, s in enumerate(sizes):
+        arr = np.zeros((s, 4), dtype=np.float32)
+        for j in range(s):
+            arr[j] = [0, 1, 1, uid]
+            uid += 1
+        arrs.append(arr)
+    dis, al = pa.dissimilarity.AbstractDissimilarity._get_all_valid_alignments(arrs, d_mat, np.float32(fp.unhex(de)))
+    return [tuple(int(x) for x in al[k]) for k in range(len(al))], [float(x) for x in dis]
+
+
+def _replay_ieee(case):
+    import itertools
+    import numpy as np
+    sizes = case["sizes"]
+    n = len(sizes)
+    offs = [sum(sizes[:a]) for a in range(n)]
+    try:
+        got, dis = _real_ieee_candidates(sizes, case["de"], case["pairs"])
+    except Exception as ex:     # noqa: BLE001
+        return dict(reproduced=True, detail="real kernel raised " + repr(ex)[:200])
+    de = np.float32(fp.unhex(case["de"]))
+    P = {tuple(sorted(int(x) for x in k.split(","))): np.float32(fp.unhex(v)) for k, v in case["pairs"].items()}
+    bad = []
+    if len(set(got)) != len(got) or len(dis) != len(got):
+        bad.append("duplicate candidates")
+    for t in itertools.product(*[range(s + 1) for s in sizes]):
+        real_slots = [a for a in range(n) if t[a] != sizes[a]]
+        if not real_slots:
+            if t in got:
+                bad.append("the all-empty tuple is a candidate")
+        elif len(real_slots) == 1:
+            if t not in got:
+                bad.append(f"lone-unit tuple {t} pruned (delta_empty = {float(de)!r}): the integer program has no feasible point")
+        elif t not in got:
+            ents = [P.get(tuple(sorted((offs[a] + t[a], offs[b] + t[b]))), np.float32(0)) for a in real_slots for b in real_slots if b < a]
+            if all(e <= de for e in ents):
+                bad.append(f"tuple {t} pruned although none of its pairs costs more than delta_empty")
+    return dict(reproduced=bool(bad), detail="; ".join(bad[:3]))
+
+
 def _oracle(sizes, de, pairs):
     import itertools
     n = len(sizes)
@@ -229,6 +337,8 @@ def replay(case):
         if not r["reproduced"] and r.get("rows", 0) <= 15000:
             return dict(reproduced=None, detail="the cross-check continuum no longer crosses the 15000 boundary")
         return r
+    if case.get("kind") == "ieee-kernel":
+        return _replay_ieee(case)
     sizes = case["sizes"]
     if case.get("chunk") is not None:
         # a scaled-capacity counterexample: first the same inputs at the real capacity; if the
@@ -322,12 +432,54 @@ def tv_cases(tier):
     return [dict(kind="kernel", sizes=[3, 2], de="3/2",
                                          pairs={"0,3": "1/2", "0,4": "4", "1,3": "7", "1,4": "0", "2,3": "3", "2,4": "3/4"}),
                                     dict(kind="kernel", sizes=[2, 1, 1], de="1",
-                                         pairs={"0,2": "1/4", "1,2": "5", "0,3": "2", "1,3": "1", "2,3": "1/2"})]
+                                         pairs={"0,2": "1/4", "1,2": "5", "0,3": "2", "1,3": "1", "2,3": "1/2"})] + _ieee_tv_cases()
+
+
+def _ieee_tv_cases():
+    """knife-edge inputs for the IEEE-mode model of the kernel: delta_empty values binary32 cannot represent, pair sums that sit on the
+    cut exactly over the reals (and on either side of it after rounding), one ulp above and below"""
+    import numpy as np
+    f32 = np.float32
+    out = []
+    for de in (0.1, 0.2, 0.4, 0.05, 0.9, 1.0, 1.0 / 3.0, 0.7, 1e-3, 123.456):
+        d = f32(de)
+        e3 = f32(3.0 * float(d))
+        for k, (a, b, c) in enumerate(((e3, e3, e3), (np.nextafter(e3, f32(np.inf)), e3, e3), (np.nextafter(e3, f32(0)), e3, e3),
+                                       (f32(9.0 * float(d)), f32(0), f32(0)), (d, d, d), (f32(7.0 * float(d)), d, d))):
+            out.append(dict(kind="ieee-kernel", sizes=[1, 1, 1], de=fp.hexf(d), pairs={"0,1": fp.hexf(a), "0,2": fp.hexf(b), "1,2": fp.hexf(c)}))
+        e2 = f32(2.0 * float(d))
+        out.append(dict(kind="ieee-kernel", sizes=[2, 1], de=fp.hexf(d), pairs={"0,2": fp.hexf(e2), "1,2": fp.hexf(np.nextafter(e2, f32(np.inf)))}))
+    return out[:: 1]
+
+
+def _sym_ieee_candidates(ns, case):
+    """the symbolic build's kernel on constant IEEE-mode values (every decision folds to a constant: no solver involved)"""
+    sizes = case["sizes"]
+    offs = [sum(sizes[:a]) for a in range(len(sizes))]
+    P = {tuple(sorted(int(x) for x in k.split(","))): fp.SymFP.of(real_np.float32(fp.unhex(v))) for k, v in case["pairs"].items()}
+    ua = ns.dissimilarity.nb.typed.List()
+    for a, sz in enumerate(sizes):
+        arr = real_np.empty((sz, 4), dtype=object)
+        for j in range(sz):
+            arr[j] = [0, 1, 1, offs[a] + j]
+        ua.append(arr)
+    old = core.Ctx.cur
+    core.Ctx.cur = core.Ctx()
+    try:
+        dis, al = ns.ds.AbstractDissimilarity._get_all_valid_alignments(
+            ua, lambda u, v: P.get(tuple(sorted((int(u[3]), int(v[3])))), fp.SymFP.of(real_np.float32(0))), fp.SymFP.of(real_np.float32(fp.unhex(case["de"]))))
+    finally:
+        core.Ctx.cur = old
+    return sorted([int(x) for x in al[k]] for k in range(len(al)))
 
 
 def tv_real(cases):
     out = []
     for c in cases:
+        if c["kind"] == "ieee-kernel":
+            got, _ = _real_ieee_candidates(c["sizes"], c["de"], c["pairs"])
+            out.append(sorted(list(t) for t in got))
+            continue
         if c["kind"] == "growth":
             r = _growth_positional()
             out.append(dict(ok=not r["reproduced"], crossed=r["rows"] > 15000))
@@ -341,6 +493,9 @@ def tv_sym(cases, ns):
     """symbolic build in concrete mode: same kernel source, plain numbers"""
     out = []
     for c in cases:
+        if c["kind"] == "ieee-kernel":
+            out.append(_sym_ieee_candidates(ns, c))
+            continue
         if c["kind"] == "growth":
             out.append(dict(ok=True, crossed=True))     # real-build-only case (real capacity), expected outcome
             continue
